@@ -18,6 +18,11 @@ module frames with the globals array of their code object, `op.Import`,
 `op.FromImport` (per listed name: try `parent/name` as a module, else attribute of the parent;
 exactly one value pushed per name), `try`, spawned clones (`vm.Clone` snapshots the maps and
 starts with nothing being imported).
+Part C (sessions): several evaluations, each with its own VM, that share ONE importer and whose
+lifetimes overlap in any way (`session`: a schedule of (evaluation, statement)); a module has two
+views — the array its module object is bound to (`St.attrArray`, what `alias.x` reads) and the array
+the executing VM has loaded for its code (`St.fnArray`, what the module's functions read and write).
+`importModuleMC` (NOT the unchanged code) is the machine for an importer that caches module objects.
 The model is the code AS IT IS: a failed body is not cached (a later import runs it again), a
 clone imports into its own snapshot; an import of a module whose body is still running is
 refused with an import error (cyclic import), and a module body leaves NOTHING on the
@@ -116,6 +121,7 @@ inductive Stmt where
   | fromImp (parent : Path) (items : List (Path × Path))  -- from parent import n1 as a1, ...
   | set (var : Path) (val : Int)                     -- top-level  var := val / var = val
   | setVia (alias var : Path) (val : Int)            -- alias.set_var(val): the module's own function stores into ITS global
+                                                     -- (the three *Via statements act on the FUNCTION view, `St.fnArray`)
   | addVia (alias var : Path) (k : Int)              -- alias.add_var(k): the module's own function does var = var + k on ITS global (a counter)
   | newList (var : Path)                             -- top-level  var := []
   | pushVia (alias var : Path) (v : Int)             -- alias.push_var(v): the module's own function appends to ITS global list
@@ -185,6 +191,26 @@ def St.store (st : St) (g : Nat) (k : Path) (v : Val) : St :=
   { st with heap := modifyAt (setKey k v) g st.heap }
 
 def St.globals (st : St) (g : Nat) : List (Path × Val) := (st.heap[g]?).getD []
+
+/-- code identity of the module object whose globals array is `g` -/
+def St.codeOfGid (st : St) (g : Nat) : Option Nat := (st.owner.find? (fun p => p.2 == g)).map (·.1)
+
+/-- the globals array a module object is BOUND to (`Module.UseGlobals`): what `module.GetAttr`
+    reads — the attribute view `alias.x` -/
+def St.attrArray (st : St) (o : Nat) : Option Nat := (st.objs[o]?).map (·.2)
+
+/-- the globals array the FUNCTIONS of module object `o` run on in the current VM — the function
+    view `alias.set_x(v)`, `alias.get_x()`: a call activates `vm.loadCode(fn.Code())`, i.e. the array
+    THIS VM has loaded for the module's root code, whatever array the module object is bound to.
+    `module_views_agree`: with the unchanged importers (a new module object per `Import` call) the two
+    views are the same array, in every VM of every session. -/
+def St.fnArray (st : St) (o : Nat) : Option Nat :=
+  match st.objs[o]? with
+  | some (_, g) =>
+    match st.codeOfGid g with
+    | some c => st.loaded.lookup c
+    | none => none
+  | none => none
 
 /-- the files the importer tries for `name`, up to and including the first that exists -/
 def attempts (env : Env) (name : Path) : List Path → List Path
@@ -278,15 +304,15 @@ def execStmt (imp : ImpFn) (env : Env) (g depth : Nat) (st : St) : Stmt → Out 
   | .setVia alias var val =>
     match (st.globals g).lookup alias with
     | some (.mod o) =>
-      match st.objs[o]? with
-      | some (_, g') => (.ok, st.store g' var (.int val))
+      match st.fnArray o with
+      | some g' => (.ok, st.store g' var (.int val))
       | none => (.err, st)
     | _ => (.err, st)
   | .addVia alias var k =>
     match (st.globals g).lookup alias with
     | some (.mod o) =>
-      match st.objs[o]? with
-      | some (_, g') =>
+      match st.fnArray o with
+      | some g' =>
         match (st.globals g').lookup var with
         | some (.int i) => (.ok, st.store g' var (.int (i + k)))
         | _ => (.err, st)
@@ -296,8 +322,8 @@ def execStmt (imp : ImpFn) (env : Env) (g depth : Nat) (st : St) : Stmt → Out 
   | .pushVia alias var v =>
     match (st.globals g).lookup alias with
     | some (.mod o) =>
-      match st.objs[o]? with
-      | some (_, g') =>
+      match st.fnArray o with
+      | some g' =>
         match (st.globals g').lookup var with
         | some (.list l) => (.ok, st.store g' var (.list (l ++ [v])))
         | _ => (.err, st)
@@ -432,9 +458,6 @@ instance (st : St) : Decidable (CodeInj st) := by unfold CodeInj; infer_instance
 def codeInj (st : St) : Bool :=
   st.compiled.all fun p => st.compiled.all fun q => p.2 != q.2 || p.1 == q.1
 
-/-- code identity of the module object whose globals array is `g` -/
-def St.codeOfGid (st : St) (g : Nat) : Option Nat := (st.owner.find? (fun p => p.2 == g)).map (·.1)
-
 /-- the importer alone: an arbitrary sequence of `Import(name)` calls on one importer -/
 def importSeq (env : Env) (names : List Path) (st : St) : St :=
   names.foldl (fun st n =>
@@ -490,5 +513,123 @@ def cleanRun (st : St) : Bool := st.failed.isEmpty && st.spawns == 0
 
 /-- the same as a proposition -/
 def Clean (st : St) : Prop := st.failed = [] ∧ st.spawns = 0
+
+/-! ## Part C: several evaluations that share ONE importer
+
+`NewLocalImporter` / `NewFSImporter` are documented as safe to share between VMs and evaluations.
+A SESSION is any number of evaluations — each with its own script, its own VM (`vm.modules`,
+`vm.loadedCode`, its script's globals array) — that use one importer and whose lifetimes overlap in
+any way: the schedule says which evaluation executes its next top-level statement (a host builtin
+that runs a plugin script, request handlers taking turns, a long-lived VM next to short ones).
+What is shared is the importer's state (`St.compiled`, `St.ncode`, `St.opens`) and the address
+spaces of module objects (`St.objs`) and globals arrays (`St.heap`, `St.owner`); the VM registers
+(`St.cache`, `St.loaded`) are swapped in and out (`St.withVM`), exactly as `execStmt` does for a
+spawned clone.  Between two top-level statements nothing is being imported (`importing_balanced`). -/
+
+/-- the registers of one evaluation's VM between two of its top-level statements -/
+structure VM where
+  cache : List (Path × Nat) := []     -- vm.modules
+  loaded : List (Nat × Nat) := []     -- vm.loadedCode
+  main : Nat := 0                     -- the globals array of its script
+  out : Out := .ok                    -- outcome so far: a script that raised has ended
+  deriving Repr
+
+structure Sess where
+  sh : St              -- importer state, module objects, globals arrays, logs (VM registers: stale)
+  vms : List VM
+  deriving Repr
+
+def St.withVM (st : St) (v : VM) : St := { st with cache := v.cache, loaded := v.loaded, importing := [] }
+
+/-- `n` evaluations about to start: evaluation `e`'s script owns globals array `e` -/
+def Sess.init (n : Nat) : Sess :=
+  { sh := { St.init with heap := List.replicate n [] }, vms := (List.range n).map fun e => { main := e } }
+
+/-- evaluation `e` executes its next top-level statement (nothing happens when it has ended) -/
+def sessStep (imp : ImpFn) (env : Env) (s : Sess) (e : Nat) (stmt : Stmt) : Sess :=
+  match s.vms[e]? with
+  | none => s
+  | some v =>
+    if v.out = .ok then
+      let r := execStmt imp env v.main 0 (s.sh.withVM v) stmt
+      { sh := r.2, vms := s.vms.set e { v with cache := r.2.cache, loaded := r.2.loaded, out := r.1 } }
+    else s
+
+def sessRun (imp : ImpFn) (env : Env) (n : Nat) (sched : List (Nat × Stmt)) : Sess :=
+  sched.foldl (fun s p => sessStep imp env s p.1 p.2) (Sess.init n)
+
+/-- a session on the unchanged code: the schedule is ANY list of (evaluation, statement) -/
+def session (env : Env) (fuel n : Nat) (sched : List (Nat × Stmt)) : Sess :=
+  sessRun (importModule env fuel) env n sched
+
+/-- the state as evaluation `v` sees it -/
+def Sess.view (s : Sess) (v : VM) : St := s.sh.withVM v
+
+/-- Spec: in every VM, for every module it has imported, attribute view = function view -/
+def sessViewsAgree (s : Sess) : Bool :=
+  s.vms.all fun v => v.cache.all fun p => (s.view v).fnArray p.2 == s.sh.attrArray p.2 && (s.sh.attrArray p.2).isSome
+
+/-- the globals arrays of a VM's modules -/
+def VM.arrays (v : VM) : List Nat := v.loaded.map (·.2)
+
+/-- Spec: evaluations share nothing — no module object and no globals array belongs to two of them,
+    and no module's array is a script's -/
+def sessDisjoint (s : Sess) : Bool :=
+  (List.range s.vms.length).all fun i => (List.range s.vms.length).all fun j =>
+    match s.vms[i]?, s.vms[j]? with
+    | some vi, some vj =>
+      i == j ||
+        (vi.cache.all fun p => vj.cache.all fun q => p.2 != q.2) &&
+        (vi.arrays.all fun g => !vj.arrays.contains g && g != vj.main && g != vi.main)
+    | _, _ => true
+
+/-! ### NOT the unchanged code: an importer that caches the MODULE OBJECT per name
+
+`importModuleMC` is `importModule` for an importer whose `Import` hands out ONE `*object.Module`
+per module name (a cache of modules instead of a cache of code): the first `Import(name)` creates
+the object, every later one — from whichever VM — returns it, and the importing VM's
+`module.UseGlobals(code.Globals)` after a completed body REBINDS that object to the importing VM's
+array.  Used by `fresh_module_objects_needed` and by the oracle's `sessmc` diagnosis only. -/
+
+/-- a body starts for a module object that exists already: everything `St.enter` does except the
+    creation of an object -/
+def St.enterShared (st : St) (name : Path) : St := { st.enter name 0 with objs := st.objs }
+
+/-- `module.UseGlobals`: the (shared) module object `oid` now reads array `gid` -/
+def St.rebind (st : St) (oid : Nat) (name : Path) (gid : Nat) : St := { st with objs := st.objs.set oid (name, gid) }
+
+def importModuleMC (env : Env) : Nat → ImpFn
+  | 0, _, st, name => (⟨.panic, 0⟩, ({ st with nofuel := true } : St).fail name)
+  | fuel + 1, depth, st, name =>
+    match st.cache.lookup name with
+    | some oid => (⟨.ok, oid⟩, st)
+    | none =>
+      if st.importing.contains name then (⟨.err, 0⟩, st.refuse name)
+      else
+        let st1 := st.noteOpens env name
+        match bodyOf env name env.exts with
+        | none => (⟨.err, 0⟩, st1)
+        | some body =>
+          let st2 := st1.noteCompiled env name
+          let cid := st2.codeOf name
+          let gid := st2.gidOf cid
+          let st3 := st2.loadCode cid
+          if depth + 1 ≥ env.limit then (⟨.panic, 0⟩, st3.fail name)
+          else
+            match st3.objs.findIdx? (fun o => o.1 == name) with
+            | none =>      -- the importer creates (and caches) the module object
+              let oid := st3.objs.length
+              let r := execStmts (importModuleMC env fuel) env gid (depth + 1) body (st3.enter name gid)
+              match r.1 with
+              | .ok => (⟨.ok, oid⟩, r.2.leave.cacheAdd name oid)
+              | o => (⟨o, 0⟩, r.2.leave.fail name)
+            | some oid =>  -- the importer's cached module object, bound to whatever array it was bound to last
+              let r := execStmts (importModuleMC env fuel) env gid (depth + 1) body (st3.enterShared name)
+              match r.1 with
+              | .ok => (⟨.ok, oid⟩, (r.2.leave.cacheAdd name oid).rebind oid name gid)
+              | o => (⟨o, 0⟩, r.2.leave.fail name)
+
+def sessionMC (env : Env) (fuel n : Nat) (sched : List (Nat × Stmt)) : Sess :=
+  sessRun (importModuleMC env fuel) env n sched
 
 end Risor.C14
